@@ -131,3 +131,60 @@ Example ex_user_resolution :
    resolve_inline 1 [] (map sys_key [r_higashi]) [26481] 4 (Some [12498; 12460; 12471]))
   = (Some 268435456, Some 0).
 Proof. vm_compute. reflexivity. Qed.
+
+(* ------------------------------------------------------------------ the reader's text handling *)
+From SudachiVerif Require Import Model.CodecCsv Proofs.CodecCsvProofs Proofs.CodecRowProofs.
+From Coq Require Import String.
+Open Scope string_scope.
+
+(* every escape form, either case, next to backslashes that start no escape *)
+Example ex_unescape :
+  unescape (text_of_string "a\u3042\u30AB\u{1F49E}\u{41}\u{000041}\u12\\u0041\u{}\u{1234567}\x\u") =
+  ROk ([97; 12354; 12459; 128158; 65; 65] ++ text_of_string "\u12\A\u{}\u{1234567}\x\u")%list.
+Proof. vm_compute. reflexivity. Qed.
+Example ex_unescape_bad :
+  (unescape (text_of_string "x\uD800"), unescape (text_of_string "A\u{110000}"), unescape (text_of_string "\u{dFfF}"))
+  = (RErr (EChar (text_of_string "D800")), RErr (EChar (text_of_string "110000")), RErr (EChar (text_of_string "dFfF"))).
+Proof. vm_compute. reflexivity. Qed.
+
+(* POS numbering: repeated and permuted requests behind a preloaded table of two rows *)
+Definition pA : posrow := map text_of_string ["n"; "a"; "*"; "*"; "*"; "*"].
+Definition pB : posrow := map text_of_string ["v"; "b"; "*"; "*"; "x"; "y"].
+Definition pC : posrow := map text_of_string ["n"; "a"; "*"; "*"; "*"; ""].
+Definition pD : posrow := map text_of_string ["p"; ""; ""; ""; ""; ""].
+Example ex_pos_inv : pos_inv [pA; pB].
+Proof. split; [repeat constructor; cbn; intuition discriminate|vm_compute; discriminate]. Qed.
+Example ex_assign : assign [pA; pB] [pD; pB; pC; pD; pA; pC] = ROk ([pA; pB; pD; pC], [2; 1; 3; 2; 0; 3]%N).
+Proof. vm_compute. reflexivity. Qed.
+
+(* two rows as their CSV fields (escapes, a sign, leading zeros, padded mode, an inline reference to the LATER row whose
+   POS is therefore numbered first): the hypotheses of C05_row_roundtrip hold and the theorem's conclusion is computed *)
+Definition row_fields (l : list string) : list text := map text_of_string l.
+Definition ex_csv : list (list text) :=
+  [ row_fields ["AB"; "+1"; "002"; "-5"; "AB"; "v"; "b"; "*"; "*"; "x"; "y"; "ab"; ""; "*"; " C "; "cd,n,a,*,*,*,*,CD/1"; "*"; "01"; "7/+8"];
+    row_fields ["cd"; "0"; "0"; "32767"; "cd"; "n"; "a"; "*"; "*"; "*"; "*"; "CD"; "cd"; "0"; "A"; "*"; ""; "*"] ].
+Example ex_csv_scalar : Forall fields_scalar ex_csv.
+Proof. repeat constructor. Qed.
+Example ex_csv_parsed :
+  match parse_records [] ex_csv with
+  | ROk (st, rrows) =>
+      (st, map (fun r => e_pos (r_entry r)) rrows,
+       option_map (map (fun e => (e_splits_a e, e_word_structure e, e_synonyms e, e_dic_form e))) (resolve_rows false rrows []))
+  | RErr _ => ([], [], None)
+  end = ([pA; pB], [1; 0]%N, Some [([1; 1], [1], [7; 8], 4294967295); ([], [], [], 0)]%N).
+Proof. vm_compute. reflexivity. Qed.
+Example ex_csv_loaded :
+  match parse_records [] ex_csv with
+  | ROk (st, rrows) =>
+      match resolve_rows false rrows [] with
+      | Some es => match write_words_section 300 es with
+                   | Some sec => option_map (fun i => (as_text (accessor A_surface i), as_num (accessor A_hwlen i), as_text (accessor A_norm i),
+                                                       as_text (accessor A_reading i), as_arr (accessor A_a i)))
+                                            (get_word_info (lexicon_of_file (ex_prefix ++ sec)%list 300) true 0 ALL)
+                   | None => None
+                   end
+      | None => None
+      end
+  | RErr _ => None
+  end = Some (text_of_string "AB", 2, text_of_string "AB", text_of_string "ab", [1; 1])%N.
+Proof. vm_compute. reflexivity. Qed.
